@@ -116,6 +116,7 @@ class SubSession:
                 self.sinks[(name, p)] = sink
         self.fail = {}
         self.connect_refused = []
+        self.lost = set()
         self._broke_pos = 0
         self.during = None
         self.during_res = 'none'
@@ -163,6 +164,12 @@ class SubSession:
             for name, port in CLIENT_PORT.items():
                 if wire.dst.endswith(f':{port}') and name in self.fail:
                     return self._exception(self.fail[name])
+                if name in self.lost and b'SubscriptionEnd' in wire.data \
+                        and wire.dst.endswith((f':{port}', f':{port + END_PORT_OFFSET}')):
+                    if self.async_mgr:
+                        import aiohttp.client_exceptions
+                        return ('after', aiohttp.client_exceptions.ServerDisconnectedError('scripted: answer lost'))
+                    return ('after', TimeoutError('scripted: answer lost'))
         return None
 
     def _on_connect(self, netloc, local):
@@ -214,6 +221,8 @@ class SubSession:
     def _rec(self, rec, **extra):
         out = {k: (sorted(v) if isinstance(v, (set, list)) and k in ('f', 'fail', 'to', 'ends') else v)
                for k, v in rec.items() if k != 'res'}
+        if 'lost' in out:
+            out['lost'] = sorted(out['lost'])
         out['model_res'] = rec.get('res', 'ok')
         out['now'] = int(round((self.vt.now - 5000.0) * 100))
         out['sent'] = self._sent()
@@ -356,7 +365,11 @@ class SubSession:
             for mgr in self.provider._subscriptions_managers.values():  # noqa: SLF001
                 mgr._run_housekeeping_thread = False  # noqa: SLF001
             self.vt.shutdown()
-            self.provider.stop_all(send_subscription_end=rec['sendEnd'])
+            self.lost = set(rec.get('lost', []))
+            try:
+                self.provider.stop_all(send_subscription_end=rec['sendEnd'])
+            finally:
+                self.lost = set()
             self.stopped = True
             out = self._rec(rec, res='ok')
             return out
